@@ -1,6 +1,195 @@
-"""Seeded breakages (see DESIGN.md appendix B). old/new are exact source fragments of the current /repo tree."""
+"""Seeded breakages (see DESIGN.md appendix B). old/new are exact source fragments of the current /repo tree; a fragment
+that no longer occurs exactly once makes the witness n/a (never a failure)."""
 WITNESSES = []
 
 
 def W(prop, name, file, old, new, expect):
     WITNESSES.append({"property": prop, "name": name, "file": file, "old": old, "new": new, "expect": expect})
+
+
+PY = "py7zr/py7zr.py"
+AI = "py7zr/archiveinfo.py"
+CO = "py7zr/compressor.py"
+HE = "py7zr/helpers.py"
+CL = "py7zr/cli.py"
+
+# ---------------------------------------------------------------- C01
+W("C01", "flush: drop the stage's own flush output", CO, "                data += compressor.flush()\n", "                pass\n", "R01.2")
+W("C01", "compress: member CRC after the chain", CO,
+  "            crc = calculate_crc32(data, crc)\n            for i, compressor in enumerate(self.chain):\n                self._unpacksizes[i] += len(data)\n                data = compressor.compress(data)\n",
+  "            for i, compressor in enumerate(self.chain):\n                self._unpacksizes[i] += len(data)\n                data = compressor.compress(data)\n            crc = calculate_crc32(data, crc)\n", "R01.2")
+W("C01", "AES compress: tail slice from nextpos", CO, "            self.buf.set(data[nextpos - buflen :])\n", "            self.buf.set(data[nextpos:])\n", "R01.2")
+W("C01", "writer: ZSTD arm removed", CO,
+  "            if filter_id == FILTER_ZSTD:\n                level = alt_filter.get(\"level\", 3)\n                properties = struct.pack(\"BBBBB\", pyzstd.zstd_version_info[0], pyzstd.zstd_version_info[1], level, 0, 0)\n                compressor = algorithm_class_map[filter_id][0](level=level)\n            elif filter_id == FILTER_PPMD:",
+  "            if filter_id == FILTER_PPMD:", "R01.1")
+W("C01", "per-folder list without explicit ids", PY, "                    folder.files.append(file_info, file_id)\n", "                    folder.files.append(file_info)\n", "R01.4")
+W("C01", "class map loses the PPMd decoder", CO, "    FILTER_PPMD: (PpmdCompressor, PpmdDecompressor),\n", "    FILTER_PPMD: (PpmdCompressor, None),\n", "R01.1")
+W("C01", "writer BCJ list forgets ARMT", CO, "                    or f[\"id\"] == FILTER_ARMTHUMB\n", "", "R01.1")
+W("C01", "archive write of the pre-chain block", CO,
+  "            self.packsize += len(data)\n            self.digest = calculate_crc32(data, self.digest)\n            foutsize += len(data)\n            fp.write(data)\n            data = fd.read(self._block_size)\n",
+  "            self.packsize += len(data)\n            self.digest = calculate_crc32(data, self.digest)\n            foutsize += len(data)\n            fp.write(raw)\n            data = fd.read(self._block_size)\n", "R01.2")
+# ---------------------------------------------------------------- C02
+W("C02", "directory mode shifted by 15", PY,
+  "                f[\"attributes\"] = getattr(stat, \"FILE_ATTRIBUTE_DIRECTORY\")\n                f[\"attributes\"] |= FILE_ATTRIBUTE_UNIX_EXTENSION | (stat.S_IFDIR << 16)\n                f[\"attributes\"] |= stat.S_IMODE(fstat.st_mode) << 16\n            elif target.is_file():\n                f[\"emptystream\"] = False\n                f[\"uncompressed\"] = fstat.st_size\n                f[\"attributes\"] = getattr(stat, \"FILE_ATTRIBUTE_ARCHIVE\")",
+  "                f[\"attributes\"] = getattr(stat, \"FILE_ATTRIBUTE_DIRECTORY\")\n                f[\"attributes\"] |= FILE_ATTRIBUTE_UNIX_EXTENSION | (stat.S_IFDIR << 16)\n                f[\"attributes\"] |= stat.S_IMODE(fstat.st_mode) << 15\n            elif target.is_file():\n                f[\"emptystream\"] = False\n                f[\"uncompressed\"] = fstat.st_size\n                f[\"attributes\"] = getattr(stat, \"FILE_ATTRIBUTE_ARCHIVE\")", "R02.1")
+W("C02", "link stored as regular file type", PY, "FILE_ATTRIBUTE_UNIX_EXTENSION | (stat.S_IFLNK << 16)", "FILE_ATTRIBUTE_UNIX_EXTENSION | (stat.S_IFREG << 16)", "R02.1")
+W("C02", "TIMESTAMP_ADJUST sign", HE, "TIMESTAMP_ADJUST = -11644473600\n", "TIMESTAMP_ADJUST = 11644473600\n", "R02.2")
+W("C02", "totimestamp forgets the epoch", HE, "        return (self / 10000000.0) + TIMESTAMP_ADJUST\n", "        return self / 10000000.0\n", "R02.2")
+W("C02", "link text decoded as latin-1", PY, "                            dst = omfp.read().decode(\"utf-8\")\n", "                            dst = omfp.read().decode(\"latin-1\")\n", "R02.3")
+W("C02", "walk skips dot files", PY, "                for nm in sorted(os.listdir(str(path))):\n", "                for nm in sorted(n for n in os.listdir(str(path)) if not n.startswith(\".\")):\n", "R02.5")
+W("C02", "walk: directory entry itself not archived", PY, "                if not path.samefile(\".\"):\n                    self.write(path, arcname)\n", "                pass\n", "R02.5")
+# ---------------------------------------------------------------- C03
+W("C03", "symlink created without is_path_valid", PY,
+  "                            if is_path_valid(fileish.parent.joinpath(dst), path) and is_path_contained(\n                                fileish.parent.joinpath(dst), path\n                            ):\n                                sym_target = pathlib.Path(dst)",
+  "                            if is_path_contained(\n                                fileish.parent.joinpath(dst), path\n                            ):\n                                sym_target = pathlib.Path(dst)", "R03.2")
+W("C03", "register the raw member name", PY, "                self.worker.register_filelike(f.id, outfilename)\n                target_files.append((outfilename, f.file_properties()))\n",
+  "                self.worker.register_filelike(f.id, pathlib.Path(f.filename))\n                target_files.append((outfilename, f.file_properties()))\n", "R03.1")
+W("C03", "sanitiser returns on the failing branch", HE, "        if is_relative_to(outfile, path):\n            return pathlib.Path(outfile)\n", "        if is_relative_to(outfile, path):\n            return pathlib.Path(outfile)\n        return pathlib.Path(outfile)\n", "R03.3")
+W("C03", "resolving containment check removed", PY,
+  "                    if not is_path_contained(fileish, path):\n                        raise Bad7zFile(f\"Member {f.filename} would be extracted out of target directory.\")\n", "", "R03.4")
+W("C03", "parallel extraction although links are present", PY,
+  "                parallel=(not self.password_protected and not self._filePassed and not has_links),\n                q=self.q,", "                parallel=(not self.password_protected and not self._filePassed),\n                q=self.q,", "R03.4")
+W("C03", "utime on a name taken from the archive", PY, "                os.utime(str(outfilename), times=(lastmodified, lastmodified))\n", "                os.utime(properties[\"filename\"], times=(lastmodified, lastmodified))\n", "R03.1")
+W("C03", "is_path_valid without canonical_path", HE, "        return is_relative_to(canonical_path(target), parent)\n", "        return is_relative_to(target, parent)\n", "R03.3")
+# ---------------------------------------------------------------- C04
+W("C04", "_check: comparison dropped", PY,
+  "                crc32 = self.decompress(fp, f.folder, ofp, f.uncompressed, f.compressed, src_end, filename=f.filename)\n            if f.crc32 is not None and crc32 != f.crc32:\n                raise CrcError(crc32, f.crc32, f.filename)\n",
+  "                crc32 = self.decompress(fp, f.folder, ofp, f.uncompressed, f.compressed, src_end, filename=f.filename)\n", "R04.2")
+W("C04", "test(): mismatch returns True", PY, "                if self._read_digest(packpos, packsizes[i]) != crcs[j]:\n                    return False\n", "                if self._read_digest(packpos, packsizes[i]) != crcs[j]:\n                    return True\n", "R04.6")
+W("C04", "start header CRC skips the size field", AI, "        self.nextheadersize, data = read_real_uint64(file)\n        crc = calculate_crc32(data, crc)\n", "        self.nextheadersize, data = read_real_uint64(file)\n", "R04.1")
+W("C04", "next-header CRC checked after the parse", PY,
+  "        if self.sig_header.nextheadercrc != calculate_crc32(buffer.getvalue()):\n            raise Bad7zFile(\"invalid header data\")\n        header = Header.retrieve(self.fp, buffer, self.afterheader, password)\n",
+  "        header = Header.retrieve(self.fp, buffer, self.afterheader, password)\n        if self.sig_header.nextheadercrc != calculate_crc32(buffer.getvalue()):\n            raise Bad7zFile(\"invalid header data\")\n", "R04.1")
+W("C04", "regular file: CRC compare only when callback queue given", PY,
+  "                            obfp.seek(0)\n                            if f.crc32 is not None and crc32 != f.crc32:", "                            obfp.seek(0)\n                            if q is not None and f.crc32 is not None and crc32 != f.crc32:", "R04.2")
+W("C04", "encoded header folder CRC mismatch ignored", AI, "                if folder.crc != calculate_crc32(folder_data):\n                    raise Bad7zFile(\"invalid block data\")\n", "                if folder.crc != calculate_crc32(folder_data):\n                    pass\n", "R04.1")
+W("C04", "calccrc hashes size before offset", AI, "        write_real_uint64(buf, self.nextheaderofs)\n        write_real_uint64(buf, self.nextheadersize)\n        write_uint32(buf, self.nextheadercrc)\n        startdata",
+  "        write_real_uint64(buf, self.nextheadersize)\n        write_real_uint64(buf, self.nextheaderofs)\n        write_uint32(buf, self.nextheadercrc)\n        startdata", "R04.3")
+# ---------------------------------------------------------------- C05
+W("C05", "no-progress exit removed from Worker.decompress", PY, "                if stalled > 1:\n                    raise DecompressionError(f\"Unexpected end of data: {out_remaining} bytes of {size} are missing.\")\n", "                pass\n", "R05.1")
+W("C05", "_read_digest decrements by what was read", PY, "            digest = calculate_crc32(self.fp.read(block), digest)\n            remaining_size -= block\n", "            data = self.fp.read(block)\n            digest = calculate_crc32(data, digest)\n            remaining_size -= len(data)\n", "R05.1")
+W("C05", "mode table cycle", PY, "                \"w+b\": \"wb\",\n", "                \"w+b\": \"wb\",\n                \"wb\": \"w+b\",\n", "R05.1")
+W("C05", "packsizes preallocated from the declared count", AI, "            self.packsizes = [read_uint64(file) for _ in range(self.numstreams)]\n", "            self.packsizes = [0] * self.numstreams\n", "R05.2")
+W("C05", "sys.exit on a bad header", AI, "            raise Bad7zFile(\"invalid header data\")\n\n    def calccrc", "            import sys\n            sys.exit(3)\n\n    def calccrc", "R05.3")
+W("C05", "constructor leaks the handle on parse errors", PY, "        except Exception as e:\n            self._fpclose()\n            raise e\n", "        except Exception as e:\n            raise e\n", "R05.3")
+# ---------------------------------------------------------------- C06
+W("C06", "FilesInfo: DUMMY arm dropped", AI, "            if prop == PROPERTY.DUMMY:\n                # Added by newer versions of 7z to adjust padding.\n                fp.seek(size, os.SEEK_CUR)\n                continue\n", "", "R06.1")
+W("C06", "FilesInfo: unknown ids silently skipped", AI, "            else:\n                raise Bad7zFile(f\"invalid type {repr(prop)}\")  # pragma: no-cover\n", "            else:\n                pass\n", "R06.1")
+W("C06", "packpos dropped from the data start", PY, "            return self.afterheader + header.main_streams.packinfo.packpos\n", "            return self.afterheader\n", "R06.2")
+W("C06", "folder CRCs read one per entry again", AI, "            crcs = read_crcs(file, defined.count(True))\n            cidx = 0\n            for idx, folder in enumerate(self.folders):",
+  "            crcs = read_crcs(file, self.numfolders)\n            cidx = 0\n            for idx, folder in enumerate(self.folders):", "R06.3")
+W("C06", "SubStreamsInfo no longer materialised", AI, "        elif self.unpackinfo is not None:\n            # SubStreamsInfo is optional: without it every folder holds exactly one stream\n            self.substreamsinfo = SubstreamsInfo.from_folders(self.unpackinfo.folders)\n", "", "R06.4")
+W("C06", "EMPTY_FILE arm dropped", AI, "            elif prop == PROPERTY.EMPTY_FILE:\n                self.emptyfiles = read_boolean(buffer, numemptystreams, checkall=False)\n", "", "R06.1")
+# ---------------------------------------------------------------- C07
+W("C07", "Name record size without the external byte", AI, "            write_uint64(file, name_size + 1)\n", "            write_uint64(file, name_size)\n", "R07.1")
+W("C07", "_after_write forgets the digest", PY, "        self.header.main_streams.substreamsinfo.digests.append(crc)\n", "", "R07.3")
+W("C07", "signature header: size before offset", AI, "        write_real_uint64(file, self.nextheaderofs)\n        write_real_uint64(file, self.nextheadersize)\n        write_uint32(file, self.nextheadercrc)\n\n    def _write_skeleton",
+  "        write_real_uint64(file, self.nextheadersize)\n        write_real_uint64(file, self.nextheaderofs)\n        write_uint32(file, self.nextheadercrc)\n\n    def _write_skeleton", "R07.2")
+W("C07", "EmptyStream size in bits", AI, "            write_uint64(file, bits_to_bytes(numfiles))\n", "            write_uint64(file, numfiles)\n", "R07.1")
+W("C07", "coder flag: attribute bit 0x40", AI, "            hasattributes = 0x20 if c[\"properties\"] is not None else 0x00\n", "            hasattributes = 0x40 if c[\"properties\"] is not None else 0x00\n", "R07.5")
+W("C07", "AES properties: iv flag at bit 5", CO, "        firstbyte = (self.cycles + (ivfirst << 6) + (saltfirst << 7)).to_bytes(1, \"little\")\n", "        firstbyte = (self.cycles + (ivfirst << 5) + (saltfirst << 7)).to_bytes(1, \"little\")\n", "R07.6")
+W("C07", "time record: 4 bytes per value declared", AI, "        size = num_defined * 8 + 2\n", "        size = num_defined * 4 + 2\n", "R07.1")
+W("C07", "flush_archive records packsize before flushing", PY, "        foutsize = compressor.flush(fp)\n        if len(self.files) > 0:", "        self.header.main_streams.packinfo.packsizes.append(compressor.packsize)\n        foutsize = compressor.flush(fp)\n        if len(self.files) > 0:", "R07.3")
+W("C07", "nextheaderofs from the end of the header", PY, "        self.sig_header.nextheaderofs = header_pos - self.afterheader\n", "        self.sig_header.nextheaderofs = header_pos + header_len - self.afterheader\n", "R07.2")
+# ---------------------------------------------------------------- C08
+W("C08", "append seeks to afterheader", PY, "            pos = self._packed_start() + self.header.main_streams.packinfo.packpositions[-1]\n", "            pos = self._packed_start()\n", "R08.3")
+W("C08", "append arm: substream counter not appended", AI, "                    self.main_streams.substreamsinfo.num_unpackstreams_folders.append(0)\n", "                    pass\n", "R08.4")
+W("C08", "partial vectors sized by the defined count again", AI, "        if not reduce(and_, defined, True):\n            size += bits_to_bytes(len(defined))\n", "        if not reduce(and_, defined, True):\n            size += bits_to_bytes(num_defined)\n", "R08.2")
+W("C08", "attributes no longer re-emitted", AI, "        # attribute\n        self._write_attributes(file)\n", "", "R08.1")
+W("C08", "unpacksizes left None without Size property", AI,
+  "        else:\n            # without a Size property a folder holds at most one substream, which has the size of the folder\n            self.unpacksizes = []\n            for i in range(len(self.num_unpackstreams_folders)):\n                if self.num_unpackstreams_folders[i] > 1:\n                    raise Bad7zFile(\"sizes of substreams are missing\")\n                elif self.num_unpackstreams_folders[i] == 1:\n                    self.unpacksizes.append(folders[i].get_unpack_size())\n", "", "R08.6")
+# ---------------------------------------------------------------- C09
+W("C09", "extract() stops normalising targets", PY, "            targets = [remove_trailing_slash(target) for target in targets]\n", "            targets = list(targets)\n", "R09.1")
+W("C09", "continue before registering None", PY, "                if f.filename not in targets:\n                    self.worker.register_filelike(f.id, None)\n                    continue\n", "                if f.filename not in targets:\n                    continue\n", "R09.2")
+W("C09", "just_check not cleared", PY, "                self._check(fp, just_check, src_end)\n                just_check = []\n", "                self._check(fp, just_check, src_end)\n", "R09.3")
+W("C09", "delayed check moved after the delivering branch", PY, "                # delayed execution of crc check.\n                self._check(fp, just_check, src_end)\n                just_check = []\n                if not isinstance(fileish, MemIO):", "                if not isinstance(fileish, MemIO):", "R09.3")
+W("C09", "empty-stream members accumulated for skip-decoding", PY, "                if not f.emptystream:\n                    just_check.append(f)\n", "                just_check.append(f)\n", "R09.3")
+# ---------------------------------------------------------------- C10
+W("C10", "FileInfo sizes swapped", PY, "                    f.compressed,\n                    f.uncompressed,\n                    f.archivable,", "                    f.uncompressed,\n                    f.compressed,\n                    f.archivable,", "R10.2")
+W("C10", "namelist sorted", PY, "        return list(map(lambda x: x.filename, self.files))\n", "        return sorted(map(lambda x: x.filename, self.files))\n", "R10.1")
+W("C10", "method renamed without the display list", CO, "            \"name\": \"PPMd\",\n", "            \"name\": \"PPMD\",\n", "R10.4")
+W("C10", "needs_password looks at the first folder only", PY, "                [SupportedMethods.needs_password(folder.coders) for folder in self.header.main_streams.unpackinfo.folders]\n", "                [SupportedMethods.needs_password(folder.coders) for folder in self.header.main_streams.unpackinfo.folders[:1]]\n", "R10.5")
+W("C10", "getinfo without slash stripping", PY, "        name = remove_trailing_slash(name)\n\n        # https://more-itertools", "        # https://more-itertools", "R10.6")
+W("C10", "blocks = number of pack streams", PY, "            len(self.header.main_streams.unpackinfo.folders) if self.header.main_streams is not None else 0,\n", "            self.header.main_streams.packinfo.numstreams if self.header.main_streams is not None else 0,\n", "R10.8")
+W("C10", "crc32 property reads another key", PY, "        return self._get_property(\"digest\")\n", "        return self._get_property(\"crc\")\n", "R10.2")
+# ---------------------------------------------------------------- C11
+W("C11", "constant IV", CO, "        self.iv = get_random_bytes(16)\n", "        self.iv = bytes(16)\n", "R11.1")
+W("C11", "8 random IV bytes", CO, "        self.iv = get_random_bytes(16)\n", "        self.iv = get_random_bytes(8)\n", "R11.1")
+W("C11", "header encryption flag not forwarded", PY, "            encrypted=self.header_encryption,\n", "            encrypted=False,\n", "R11.3")
+W("C11", "raw header written to the file in _encode_header", AI, "        _, raw_header_len, raw_crc = self.write(buf, 0, False)\n", "        _, raw_header_len, raw_crc = self.write(file, 0, False)\n", "R11.3")
+W("C11", "password check after chain construction", CO,
+  "        if SupportedMethods.needs_password(coders) and password is None:\n            raise PasswordRequired(coders, \"Password is required for extracting given archive.\")\n        # Check filters combination and required parameters\n", "        # Check filters combination and required parameters\n", "R11.4")
+W("C11", "encoded arm tested before encrypted", AI, "        if encrypted:\n            filters = DEFAULT_FILTERS.ENCRYPTED_HEADER_FILTER\n            startpos, headercrc = self._encode_header(file, afterheader, filters)\n        elif encoded:\n            filters = DEFAULT_FILTERS.ENCODED_HEADER_FILTER\n            startpos, headercrc = self._encode_header(file, afterheader, filters)\n",
+  "        if encoded:\n            filters = DEFAULT_FILTERS.ENCODED_HEADER_FILTER\n            startpos, headercrc = self._encode_header(file, afterheader, filters)\n        elif encrypted:\n            filters = DEFAULT_FILTERS.ENCRYPTED_HEADER_FILTER\n            startpos, headercrc = self._encode_header(file, afterheader, filters)\n", "R11.3")
+W("C11", "encrypted default chain without AES", "py7zr/properties.py", "    ENCRYPTED_ARCHIVE_FILTER = [{\"id\": FILTER_LZMA2, \"preset\": 7 | PRESET_DEFAULT}, {\"id\": FILTER_CRYPTO_AES256_SHA256}]\n", "    ENCRYPTED_ARCHIVE_FILTER = [{\"id\": FILTER_LZMA2, \"preset\": 7 | PRESET_DEFAULT}]\n", "R11.2")
+W("C11", "password encoded as utf-8 on the reader side", CO, "            key = calculate_key(password.encode(\"utf-16LE\"), numcyclespower, salt, \"sha256\")\n", "            key = calculate_key(password.encode(\"utf-8\"), numcyclespower, salt, \"sha256\")\n", "R07.6")
+# ---------------------------------------------------------------- C12
+W("C12", "mode r opens r+b", PY, "                \"r\": \"rb\",\n", "                \"r\": \"r+b\",\n", "R12.2")
+W("C12", "reset writes to the archive", PY, "            self.fp.seek(self._packed_start())\n            self.worker = Worker(self.files, self._packed_start(), self.header, self.mp)\n            self._reset_decompressor()\n",
+  "            self.fp.seek(self._packed_start())\n            self.fp.write(b\"\")\n            self.worker = Worker(self.files, self._packed_start(), self.header, self.mp)\n            self._reset_decompressor()\n", "R12.1")
+W("C12", "close flushes regardless of mode", PY, "        if \"w\" in self.mode:\n            self._write_flush()\n", "        self._write_flush()\n", "R12.1")
+W("C12", "testzip keeps decoder caches", PY, "        self.worker = Worker(self.files, self._packed_start(), self.header, self.mp)\n        self._reset_decompressor()\n        for f in self.files:", "        self.worker = Worker(self.files, self._packed_start(), self.header, self.mp)\n        for f in self.files:", "R12.3")
+W("C12", "reset clears only the first folder", PY, "            for i, folder in enumerate(self.header.main_streams.unpackinfo.folders):\n                folder.decompressor = None\n", "            for i, folder in enumerate(self.header.main_streams.unpackinfo.folders[:1]):\n                folder.decompressor = None\n", "R12.3")
+W("C12", "worker thread opens the archive r+b", PY, "                fp = open(fp, \"rb\")\n", "                fp = open(fp, \"r+b\")\n", "R12.2")
+# ---------------------------------------------------------------- C13
+W("C13", "task gets the shared handle", PY, "                            args=(\n                                filename,\n                                folders[i].files,", "                            args=(\n                                fp,\n                                folders[i].files,", "R13.1")
+W("C13", "error channel not passed", PY, "                                q,\n                                exc_q,\n                                skip_notarget,\n                            ),", "                                q,\n                                None,\n                                skip_notarget,\n                            ),", "R13.3")
+W("C13", "only the last task joined", PY, "                    for p in concurrent_tasks:\n                        p.join()\n", "                    p.join()\n", "R13.3")
+W("C13", "re-raise dropped", PY, "                        exc_info = exc_q.get()\n                        raise exc_info[1].with_traceback(exc_info[2])\n", "                        exc_info = exc_q.get()\n", "R13.3")
+W("C13", "handle cached on the shared worker", PY, "            fp.seek(src_start)\n            self._extract_single(fp, files, path, src_end, q, skip_notarget)\n", "            self.fp = fp\n            fp.seek(src_start)\n            self._extract_single(fp, files, path, src_end, q, skip_notarget)\n", "R13.2")
+W("C13", "task errors swallowed without a channel", PY, "            if exc_q is None:\n                raise e\n            else:", "            if exc_q is None:\n                pass\n            else:", "R13.3")
+# ---------------------------------------------------------------- C14
+W("C14", "signature header before the header", PY,
+  "        (header_pos, header_len, header_crc) = self.header.write(\n            self.fp,\n            self.afterheader,\n            encoded=self.encoded_header_mode,\n            encrypted=self.header_encryption,\n        )\n        self.sig_header.nextheaderofs = header_pos - self.afterheader\n        self.sig_header.calccrc(header_len, header_crc)\n        self.sig_header.write(self.fp)\n",
+  "        self.sig_header.write(self.fp)\n        (header_pos, header_len, header_crc) = self.header.write(\n            self.fp,\n            self.afterheader,\n            encoded=self.encoded_header_mode,\n            encrypted=self.header_encryption,\n        )\n        self.sig_header.nextheaderofs = header_pos - self.afterheader\n        self.sig_header.calccrc(header_len, header_crc)\n", "R14.2")
+W("C14", "placeholder with a verifying CRC", AI, "        write_uint32(file, 1)\n        write_real_uint64(file, 2)\n        write_real_uint64(file, 3)\n        write_uint32(file, 4)\n", "        write_uint32(file, 0x8D9FE7E5)\n        write_real_uint64(file, 0)\n        write_real_uint64(file, 0)\n        write_uint32(file, 0)\n", "R14.1")
+W("C14", "header written before the folder flush", PY, "            if self.header._initialized:\n                folder = self.header.main_streams.unpackinfo.folders[-1]\n                self.worker.flush_archive(self.fp, folder)\n            self._write_header()\n",
+  "            self._write_header()\n            if self.header._initialized:\n                folder = self.header.main_streams.unpackinfo.folders[-1]\n                self.worker.flush_archive(self.fp, folder)\n", "R14.2")
+W("C14", "trailing write after the commit", PY, "        if \"a\" in self.mode:\n            self._write_flush()\n", "        if \"a\" in self.mode:\n            self._write_flush()\n            self.fp.write(b\"\")\n", "R14.2")
+# ---------------------------------------------------------------- C15
+W("C15", "rollback removed from write()", PY,
+  "        except Exception:\n            # the source could not be archived: forget the member so that the archive stays consistent\n            self.header.files_info.files.pop()\n            self.header.files_info.emptyfiles.pop()\n            self.files.pop()\n            raise\n\n    def writef",
+  "        except Exception:\n            raise\n\n    def writef", "R15.1")
+W("C15", "rollback forgets self.files", PY,
+  "                self.header.files_info.files.pop()\n                self.header.files_info.emptyfiles.pop()\n                self.files.pop()\n                raise\n        else:", "                self.header.files_info.files.pop()\n                self.header.files_info.emptyfiles.pop()\n                raise\n        else:", "R15.1")
+W("C15", "gate after header.initialize in _writestr", PY, "        if not isinstance(arcname, str):\n            raise ValueError(\"Unsupported arcname\")\n        if isinstance(data, str):", "        self.header.initialize()\n        if not isinstance(arcname, str):\n            raise ValueError(\"Unsupported arcname\")\n        if isinstance(data, str):", "R15.2")
+W("C15", "special files accepted again", PY, "        if \"emptystream\" not in f:\n            # neither a symbolic link, a directory nor a regular file\n            raise ValueError(f\"Unsupported file type: {target}\")\n", "", "R15.2")
+W("C15", "__exit__ closes only without exception", PY, "    def __exit__(self, exc_type, exc_val, exc_tb):\n        self.close()\n", "    def __exit__(self, exc_type, exc_val, exc_tb):\n        if exc_type is None:\n            self.close()\n", "R15.3")
+# ---------------------------------------------------------------- C16
+W("C16", "writef without the gate", PY, "        if not check_archive_path(arcname):\n            raise ValueError(f\"Specified path is bad: {arcname}\")\n        return self._writef(bio, arcname)\n", "        return self._writef(bio, arcname)\n", "R16.1")
+W("C16", "public method calling _writef directly", PY, "    def writestr(self, data: Union[str, bytes, bytearray, memoryview], arcname: str):\n", "    def writebytes(self, data: bytes, arcname: str):\n        return self._writef(io.BytesIO(data), arcname)\n\n    def writestr(self, data: Union[str, bytes, bytearray, memoryview], arcname: str):\n", "R16.2")
+W("C16", "given arcname bypasses the sanitiser", PY, "        else:\n            arcname = self._sanitize_archive_arcname(arcname)\n        if isinstance(file, str):", "        else:\n            arcname = str(arcname)\n        if isinstance(file, str):", "R16.3")
+W("C16", "sanitiser returns before the isabs test", PY, "        if os.path.isabs(path) or re.match(\"^[a-zA-Z]:\", path):\n            # Path is absolute even after stripping.\n            raise AbsolutePathError(arcname)\n        return path\n", "        return path\n", "R16.4")
+W("C16", "climb check removed", HE, "            depth -= 1\n            if depth < 0:\n                return False\n", "            depth -= 1\n", "R16.5")
+W("C16", "gate raises only a warning", PY, "        if not check_archive_path(arcname):\n            raise ValueError(f\"Specified path is bad: {arcname}\")\n        return self._writestr(data, arcname)\n", "        if not check_archive_path(arcname):\n            pass\n        return self._writestr(data, arcname)\n", "R16.1")
+# ---------------------------------------------------------------- C17
+W("C17", "class table row wrong", AI, "        (0b11011111, 2),\n", "        (0b11011111, 3),\n", "R17.1")
+W("C17", "write_uint32 big endian", AI, "    b = pack(\"<L\", value)\n", "    b = pack(\">L\", value)\n", "R17.3")
+W("C17", "reader decodes utf-16BE", AI, "    return val.decode(\"utf-16LE\")\n", "    return val.decode(\"utf-16BE\")\n", "R17.4")
+W("C17", "threshold off by a factor", AI, "    if high_byte < 2 << (8 - byte_length - 1):\n", "    if high_byte < 2 << (8 - byte_length):\n", "R17.8")
+W("C17", "nine-byte threshold too high", AI, "    if value > 0xFFFFFFFFFFFFFF:\n", "    if value > 0xFFFFFFFFFFFFFFFF:\n", "R17.2")
+W("C17", "branch B mask loop one short", AI, "        for x in range(byte_length):\n            mask |= 0x80 >> x\n", "        for x in range(byte_length - 1):\n            mask |= 0x80 >> x\n", "R17.8")
+W("C17", "attributes decided by truthiness", AI, "            if \"attributes\" in f.keys() and f[\"attributes\"] is not None:\n", "            if f.get(\"attributes\"):\n", "R17.5")
+W("C17", "boolean writer LSB first", AI, "            o[i // 8] |= 1 << (7 - i % 8)\n", "            o[i // 8] |= 1 << (i % 8)\n", "R17.3")
+W("C17", "property id DUMMY changed", "py7zr/properties.py", "    DUMMY = binascii.unhexlify(\"19\")\n", "    DUMMY = binascii.unhexlify(\"1a\")\n", "R17.6")
+# ---------------------------------------------------------------- C18
+W("C18", "post before the worker call", PY, "        self.q.put((\"pre\", None, None))\n", "        self.q.put((\"pre\", None, None))\n        self.q.put((\"post\", None, None))\n", "R18.2")
+W("C18", "new tag without dispatch", PY, "                    q.put((\"u\", None, str(decompressed_bytes)))\n", "                    q.put((\"p\", None, str(decompressed_bytes)))\n", "R18.3")
+W("C18", "update not forced at the end of the member", PY, "                if out_remaining <= 0 or time_delta >= 1:\n", "                if time_delta >= 1:\n", "R18.4")
+W("C18", "handle closed before the reporter is joined", PY, "        if \"r\" in self.mode:\n            if self.reporterd is not None:", "        self._fpclose()\n        if \"r\" in self.mode:\n            if self.reporterd is not None:", "R18.5")
+W("C18", "end event carries the compressed size", PY, "                q.put((\"e\", str(f.filename), str(f.uncompressed)))\n", "                q.put((\"e\", str(f.filename), str(f.compressed)))\n", "R18.1")
+W("C18", "reporter swaps the fields of the end event", PY, "                    callback.report_end(item[1], item[2])\n", "                    callback.report_end(item[2], item[1])\n", "R18.3")
+# ---------------------------------------------------------------- C19
+W("C19", "Bad7zFile handler of run_test returns 0", CL, "            except py7zr.exceptions.Bad7zFile:\n                print(\"Header is corrupted. Cannot read as 7z file.\")\n                return 1\n            except py7zr.exceptions.PasswordRequired:\n                print(\"The archive is encrypted but password is not given. FAILED.\")",
+  "            except py7zr.exceptions.Bad7zFile:\n                print(\"Header is corrupted. Cannot read as 7z file.\")\n                return 0\n            except py7zr.exceptions.PasswordRequired:\n                print(\"The archive is encrypted but password is not given. FAILED.\")", "R19.2")
+W("C19", "DecompressionError handler falls off the end", CL, "            print(\"Error has been occurred during decompression. ABORT.\")\n            return 1\n", "            print(\"Error has been occurred during decompression. ABORT.\")\n", "R19.2")
+W("C19", "unit table without g", CL, "        \"g\": 1024 * 1024 * 1024,\n", "", "R19.3")
+W("C19", "append opens with mode w", CL, "        with py7zr.SevenZipFile(target, \"a\") as szf:\n", "        with py7zr.SevenZipFile(target, \"w\") as szf:\n", "R19.4")
+W("C19", "t ignores the verdict", CL, "                if a.testzip() is None:\n", "                a.testzip()\n                if True:\n", "R19.2")
+W("C19", "handler for x missing", CL, "        extract_parser.set_defaults(func=self.run_extract)\n", "", "R19.1")
+# ---------------------------------------------------------------- C20
+W("C20", "LZMA1 decoder drops max_length", CO, "        return self._decompressor.decompress(data, max_length)\n", "        return self._decompressor.decompress(data)\n", "R20.1")
+W("C20", "source read without size", CO, "        data = fd.read(self._block_size)\n        insize = len(data)\n", "        data = fd.read()\n        insize = len(data)\n", "R20.2")
+W("C20", "_read_data reads the whole remainder", CO, "        read_size = min(rest_size - unused_s, self.block_size - unused_s)\n", "        read_size = rest_size - unused_s\n", "R20.2")
+W("C20", "decode loop requests the whole member", PY, "            tmp = decompressor.decompress(fp, min(out_remaining, max_block_size))\n", "            tmp = decompressor.decompress(fp, out_remaining)\n", "R20.4")
+W("C20", "PPMd decoder ignores max_length", CO, "        return self.decoder.decode(data, max_length)\n", "        return self.decoder.decode(data, -1)\n", "R20.1")
